@@ -38,6 +38,7 @@ type Group struct {
 	// FailOnceAt: the k-th mutating call fails with a transient error and does not land; the
 	// process lives on (no crash). 0 = never.
 	FailOnceAt int
+	FailOnceOp string // when set: only mutating calls of this kind (put, delete, touch) count for FailOnceAt
 	// FailReadAt: the k-th non-mutating call (Has, Get, GetAttr, GetAt, Keys, KeysPrefix) fails once
 	// with a transient error. 0 = never. FailReadKey, when set, restricts the count to calls whose
 	// key (or listing prefix) contains it.
@@ -47,6 +48,7 @@ type Group struct {
 	// Hook, when set, runs before every call, outside the group's lock (delays, rendezvous).
 	Hook   func(store, op, key string)
 	count  int
+	fcount int
 	reads  int
 	dead   bool
 	Writes []Write
@@ -112,7 +114,10 @@ func (s *Store) mutate(op, key string, noOverwrite bool, do func() error) error 
 	}
 	s.g.count++
 	w := Write{Store: s.name, Op: op, Key: key, NoOverwrite: noOverwrite}
-	if s.g.FailOnceAt != 0 && s.g.count == s.g.FailOnceAt {
+	if s.g.FailOnceOp == "" || s.g.FailOnceOp == op {
+		s.g.fcount++
+	}
+	if s.g.FailOnceAt != 0 && s.g.fcount == s.g.FailOnceAt && (s.g.FailOnceOp == "" || s.g.FailOnceOp == op) {
 		w.Err = true
 		s.g.Writes = append(s.g.Writes, w)
 		return ErrTransient
